@@ -9,7 +9,7 @@ ALLOWED_AXIOMS = {"Classical_Prop.classic", "ClassicalDedekindReals.sig_not_dec"
                   "FunctionalExtensionality.functional_extensionality_dep"}
 PROPS = {"C19"}
 MANIFEST = {
-    "text": "Coq theorems: an independent, declarative analysis lists the causes that apply to a request in a state (unknown signal, expired token, missing scope, invalid value / pattern / missing field, no live provider, already claimed); for reads, every element of every write path, actuation and the kuksa.val.v2 GetValue / PublishValue handlers it is proved that a reported failure carries the class of one of the applicable causes and that a request to which no cause applies is served; all vocabularies (gRPC code, v1 numeric code, sdv DatapointError) map an internal error to the same class (sdv and v2 in-stream codes have no 'unauthenticated' member: access-denied stands for both, as their .proto documents). Tied to the code by handler-level and in-process histories rich in single- and multi-cause failures (unknown ids/paths, absent fields, over-long paths, foreign scopes, tokens expiring mid-history, invalid values, missing / lost / expired providers, overlapping claims), diffed against the real handlers with exact codes; an independent Python cause oracle judges every reported status of the implementation.",
+    "text": "Coq theorems: an independent, declarative analysis lists the causes that apply to a request in a state (unknown signal, expired token, missing scope, invalid value / pattern / missing field, no live provider, already claimed); for reads, every element of every write path, actuation and the kuksa.val.v2 GetValue / PublishValue handlers it is proved that a reported failure carries the class of one of the applicable causes and that a request to which no cause applies is served; all vocabularies (gRPC code, v1 numeric code, sdv DatapointError) map an internal error to the same class (sdv and v2 in-stream codes have no 'unauthenticated' member: access-denied stands for both, as their .proto documents). Tied to the code by handler-level and in-process histories rich in single- and multi-cause failures (unknown ids/paths, absent fields, over-long paths, foreign scopes, tokens expiring mid-history, invalid values, missing / lost / expired providers, overlapping claims), diffed against the real handlers with exact codes; an independent Python cause oracle judges every reported status of the implementation. Also: claims (c19_claim_already_exists: ALREADY_EXISTS only if some named actuator has a registered owner; c19_claim_served); not_found in a Set / StreamedUpdate reply only for a path that names no registered signal; the client-stream scenarios.",
     "note": "Trusted: Coq kernel; stdlib axioms via Flocq (validate); extraction + OCaml driver; harness/src/fam_api.rs. The handler theorems cover v2 GetValue/PublishValue and the core operations every other handler maps its errors from; the remaining handlers' status mapping is covered by the exact-code correspondence and the cause oracle. A provider whose token expired is reported to the actuating caller as UNAUTHENTICATED (the code's choice, accepted by C10's wording).",
 }
 RULE = ("handler-level and in-process histories (weights W_API) with 2-4 principals incl. expiring tokens; every "
